@@ -52,6 +52,7 @@ Strict == [allDomains |-> TRUE,   \* a placed pod blocks / occupies EVERY domain
                                   \* always, a matching pod that does not carry the constraint may have been in any domain, and the
                                   \* universe is what the existing nodes and the pods running before the pass establish (minDomains,
                                   \* which a too small universe would trigger wrongly, is not applied)
+           undefCustom |-> FALSE, \* the same for CUSTOM (not well-known) label keys only
            undefSkips |-> FALSE]  \* a pod committed to a NodeClaim that left a key of the node filter undefined at that moment is not counted
 
 Fld(r, f, d) == IF f \in DOMAIN r THEN r[f] ELSE d
@@ -137,9 +138,13 @@ Inc(o, cfg, p0, s, T) ==
     THEN IF ~KnownNode(cfg, T.node) THEN [lo |-> FALSE, hi |-> FALSE]
          ELSE LET n == NodeByName(cfg, T.node)
                   aff == s.affPol = "Ignore" \/ NodeAffHolds(cfg, p, NodeLabelling(n))
+                  \* taints only the Node object carries (scenario field nodeTaints): certain on an initialized / unmanaged node; on a
+                  \* node that is not initialized yet they may or may not be looked at (like its startup / not-ready taints)
+                  nt == Fld(n, "nodeTaints", <<>>)
+                  settled == n.stage \in {"initialized", "unmanaged"}
                   extra == IF n.stage \in {"registered", "appeared"} THEN n.startup \o (IF n.ephemeral THEN <<NotReadyTaint>> ELSE <<>>) ELSE <<>>
-                  t1 == s.taintPol # "Honor" \/ TaintsOK(o, p.tol, n.taints)
-                  t2 == s.taintPol # "Honor" \/ TaintsOK(o, p.tol, n.taints \o extra)
+                  t1 == s.taintPol # "Honor" \/ TaintsOK(o, p.tol, IF settled THEN n.taints \o nt ELSE n.taints)
+                  t2 == s.taintPol # "Honor" \/ TaintsOK(o, p.tol, n.taints \o nt \o extra)
               IN [lo |-> aff /\ t1 /\ t2, hi |-> aff /\ (t1 \/ t2)]
     ELSE LET Ls == ClaimLabellings(cfg, T, NodeConstraintKeys(p))
              tt == s.taintPol # "Honor" \/ TaintsOK(o, p.tol, PoolTaints(cfg, T.pool))
@@ -161,6 +166,8 @@ Loc(W, q) == IF PKey(q) \in PlacedKeys(W) THEN W.tg[W.plc[PlcIdx(W, PKey(q))].ti
 AtCommit(W, q) == LET e == W.plc[PlcIdx(W, PKey(q))] IN Fld(e, "at", W.tg[e.tid])
 UndefAtCommit(W, q, fp) == LET T == AtCommit(W, q) IN
     T.kind = "claim" /\ \E k \in NodeConstraintKeys(fp) : k \in DOMAIN T.reqs /\ ~T.reqs[k].defined
+UndefCustomAtCommit(W, q, fp) == LET T == AtCommit(W, q) IN
+    T.kind = "claim" /\ \E k \in NodeConstraintKeys(fp) \ WellKnown : k \in DOMAIN T.reqs /\ ~T.reqs[k].defined
 Others(o, W, p) == {q \in Present(o, W) : PKey(q) # PKey(p)}
 \* W without pod p's placement
 Without(W, p) == [W EXCEPT !.plc = SelectSeq(W.plc, LAMBDA e : e.pod # PKey(p))]
@@ -225,7 +232,8 @@ SpreadParts(o, W, p, x, s, UL) ==
         U == UL \cup ULow(o, W, p, s)
         R == Running(o, W)
         P == {q \in Others(o, W, p) : SpreadMatches(o, s, p, q) /\ (o.since > 0 => q \in R \/ PlcIdx(W, PKey(q)) > o.since)
-                                        /\ (o.undefSkips => q \in R \/ ~UndefAtCommit(W, q, IF o.fpod = <<>> THEN p ELSE o.fpod[1]))}
+                                        /\ (o.undefSkips => q \in R \/ ~UndefAtCommit(W, q, IF o.fpod = <<>> THEN p ELSE o.fpod[1]))
+                                        /\ (o.undefCustom => q \in R \/ ~UndefCustomAtCommit(W, q, IF o.fpod = <<>> THEN p ELSE o.fpod[1]))}
         inc == [q \in P |-> Inc(o, cfg, p, s, Loc(W, q))]
         dom == [q \in P |-> TDom(cfg, Loc(W, q), k)]
         sure == {q \in P : q \in R \/ Carries(q, s, p)}
@@ -300,18 +308,20 @@ SigAnti(W, p, x, c) ==       \* c = <<term index, key of the other pod>>
 SigInv(W, p, x, c) ==        \* c = <<key of the owner, term index>>
     LET q == PodByKey(W.cfg, c[1]) IN
     "inverse:" \o q.anti[c[2]].key \o ":" \o x.kind \o "-vs-" \o KindOf(W, q) \o (IF Loc(W, q).id = x.id THEN ":same-target" ELSE "")
-SigAff(o, W, p, x, t, e) ==
+SigAff(o, W, p, x, t, e, known) ==
     LET a == AffParts(o, W, p, x, t)
         M == {q \in Others(o, W, p) : TermMatches(W.cfg, t, p, q)}
         reach == {q \in M : \E v \in TDom(W.cfg, Loc(W, q), t.key) : PodAllowsKey(W.cfg, p, t.key, v)}
     IN
     IF a.haskey /\ ~a.matched /\ a.self /\ ~a.lonely
     THEN \* a second self-starter: classify the known causes narrowly
-         IF e # <<>> /\ Len(p.terms) > 1 /\ AffTermOK([o EXCEPT !.dpod = e], W, p, x, t) THEN "affinity:self-start:match-reachable-only-via-later-term"
+         IF "F-C02-5" \in known /\ e # <<>> /\ Len(p.terms) > 1 /\ AffTermOK([o EXCEPT !.dpod = e], W, p, x, t) THEN "affinity:self-start:match-reachable-only-via-later-term"
          ELSE IF \A q \in reach : PKey(q) \in PlacedKeys(W) /\ Cardinality(TDom(W.cfg, AtCommit(W, q), t.key)) > 1
               THEN (IF \E q \in reach : \E j \in DOMAIN q.aff : TermMatches(W.cfg, q.aff[j], q, q) /\ q.aff[j].key = t.key
-                    THEN "affinity:self-start:earlier-self-starter-left-with-several-domains"
-                    ELSE "affinity:self-start:earlier-match-domain-undetermined")
+                    THEN (IF "F-C02-9" \in known THEN "affinity:self-start:earlier-self-starter-left-with-several-domains"
+                          ELSE "affinity:" \o t.key \o ":" \o x.kind \o ":self-start-while-earlier-self-starter-undetermined")
+                    ELSE (IF "F-C02-10" \in known THEN "affinity:self-start:earlier-match-domain-undetermined"
+                          ELSE "affinity:" \o t.key \o ":" \o x.kind \o ":self-start-while-match-reachable"))
          ELSE "affinity:" \o t.key \o ":" \o x.kind \o ":self-start-while-match-reachable"
     ELSE "affinity:" \o t.key \o ":" \o x.kind \o
          (IF ~a.haskey THEN ":target-lacks-key"
@@ -335,7 +345,7 @@ Reproduces(o, W, p, x, s, U, g) ==
             meHi == IF e \in a.dx /\ ix.hi THEN a.self ELSE 0
         IN a.loOn[e] + meLo <= g.domains[e] /\ g.domains[e] <= a.posOn[e] + meHi
 Explains(o, W, p, x, s, U, groups) == SpreadOK(o, W, p, x, s, U) /\ \E g \in groups : Reproduces(o, W, p, x, s, U, g)
-SpreadCause(o, W, p, x, s, U, e, groups) ==
+SpreadCause(o, W, p, x, s, U, e, groups, known) ==
     LET relaxed == e # <<>> /\ (e[1].tol # p.tol \/ e[1].terms # p.terms)
         mds == {g.minDomains : g \in groups} \ {s.minDomains}
         owners == UNION {Range(g.owners) : g \in groups}
@@ -347,20 +357,26 @@ SpreadCause(o, W, p, x, s, U, e, groups) ==
                     /\ PKey(q) \in owners \/ (NodeConstraintKeys(q) = NodeConstraintKeys(p) /\ \E i \in DnsIdx(q) : q.spread[i].key = s.key)}
         \* ... and those pods as relaxation may have left them (leading required terms dropped)
         othR == oth \cup UNION {{[q EXCEPT !.terms = SubSeq(q.terms, k, Len(q.terms))] : k \in 2..Len(q.terms)} : q \in oth}
-        c1 == \E m \in mds : Explains(o, W, p, x, [s EXCEPT !.minDomains = m], U, {g \in groups : g.minDomains = m})
-        c2 == s.affPol = "Ignore" /\ Explains([o EXCEPT !.ignoreWidens = FALSE], W, p, x, s, U, groups)
-        c3 == e # <<>> /\ Len(p.terms) > 1 /\ Explains([o EXCEPT !.dpod = e], W, p, x, s, U, groups)
-        c4 == s.taintPol = "Honor" /\ Explains([o EXCEPT !.preferTaint = TRUE], W, p, x, s, U, groups)
-        c5 == relaxed /\ \E j \in DOMAIN W.plc : Explains([o EXCEPT !.since = j], W, p, x, s, U, groups)
-        c6 == \E q \in othR : Explains([o EXCEPT !.fpod = <<q>>], W, p, x, s, U, groups)
-        c7 == Explains([o EXCEPT !.undefSkips = TRUE], W, p, x, s, U, groups)
+        K(id) == id \in known        \* only the findings still listed as `known` may explain anything (a fixed one is a regression)
+        c1 == K("F-C02-2") /\ \E m \in mds : Explains(o, W, p, x, [s EXCEPT !.minDomains = m], U, {g \in groups : g.minDomains = m})
+        c2 == K("F-C02-3") /\ s.affPol = "Ignore" /\ Explains([o EXCEPT !.ignoreWidens = FALSE], W, p, x, s, U, groups)
+        c3 == K("F-C02-4") /\ e # <<>> /\ Len(p.terms) > 1 /\ Explains([o EXCEPT !.dpod = e], W, p, x, s, U, groups)
+        c4 == K("F-C02-6") /\ s.taintPol = "Honor" /\ Explains([o EXCEPT !.preferTaint = TRUE], W, p, x, s, U, groups)
+        c5 == K("F-C02-1") /\ relaxed /\ \E j \in DOMAIN W.plc : Explains([o EXCEPT !.since = j], W, p, x, s, U, groups)
+        c6 == K("F-C02-7") /\ \E q \in othR : Explains([o EXCEPT !.fpod = <<q>>], W, p, x, s, U, groups)
+        c8 == K("F-C02-12") /\ Explains([o EXCEPT !.undefCustom = TRUE], W, p, x, s, U, groups)
+        c7 == K("F-C02-8") /\ Explains([o EXCEPT !.undefSkips = TRUE], W, p, x, s, U, groups)
         \* several of the deviations acting together: the ones that only move the minimum (another pod's minDomains, Ignore policy,
         \* first term) are granted at once, each of the ones that change the counts is granted or not - and the combination must
         \* still reproduce the code's counts on every domain
-        oMin == [o EXCEPT !.ignoreWidens = FALSE, !.dpod = IF e # <<>> /\ Len(p.terms) > 1 THEN e ELSE <<>>]
-        call == \E m \in mds \cup {s.minDomains} : \E pt \in BOOLEAN : \E us \in BOOLEAN :
-                \E j \in (IF relaxed THEN DOMAIN W.plc ELSE {}) \cup {0} : \E fq \in {<<q>> : q \in othR} \cup {<<>>} :
-                    Explains([oMin EXCEPT !.preferTaint = pt /\ s.taintPol = "Honor", !.undefSkips = us, !.since = j, !.fpod = fq], W, p, x,
+        oMin == [o EXCEPT !.ignoreWidens = ~K("F-C02-3"), !.dpod = IF K("F-C02-4") /\ e # <<>> /\ Len(p.terms) > 1 THEN e ELSE <<>>]
+        call == K("F-C02-11") /\
+                \E m \in (IF K("F-C02-2") THEN mds ELSE {}) \cup {s.minDomains} :
+                \E uc \in (IF K("F-C02-12") THEN BOOLEAN ELSE {FALSE}) :
+                \E pt \in (IF K("F-C02-6") THEN BOOLEAN ELSE {FALSE}) : \E us \in (IF K("F-C02-8") THEN BOOLEAN ELSE {FALSE}) :
+                \E j \in (IF K("F-C02-1") /\ relaxed THEN DOMAIN W.plc ELSE {}) \cup {0} :
+                \E fq \in (IF K("F-C02-7") THEN {<<q>> : q \in othR \cup {p}} ELSE {}) \cup {<<>>} :  \* (p itself: a relaxed pod that falls back into the group of its original form)
+                    Explains([oMin EXCEPT !.preferTaint = pt /\ s.taintPol = "Honor", !.undefSkips = us, !.undefCustom = uc, !.since = j, !.fpod = fq], W, p, x,
                              [s EXCEPT !.minDomains = m], U, {g \in groups : g.minDomains = m})
     IN IF c1 THEN ":minDomains-of-another-pods-constraint"
        ELSE IF c2 THEN ":ignore-policy-minimum-over-own-domains"
@@ -369,6 +385,7 @@ SpreadCause(o, W, p, x, s, U, e, groups) ==
        ELSE IF c5 THEN ":placements-forgotten-after-relaxation"
        ELSE IF c6 THEN ":node-filter-of-another-pod"
        ELSE IF c7 THEN ":claim-with-undefined-label-not-counted"
+       ELSE IF c8 THEN ":claim-with-undefined-custom-label-not-counted"
        ELSE IF call THEN ":several-known-causes"
        ELSE ""
 SigSpread(o, W, p, x, s, U, cause) ==
